@@ -65,7 +65,7 @@ func (c *Ctx) a8phase(cleanFields map[*types.Var]bool) *a8Model {
 				if _, isGo := in.(*ssa.Go); isGo {
 					continue
 				}
-				for _, g := range p.Callees(call) {
+				for _, g := range p.CalleesData(call) {
 					if p.InPkg(g) && len(g.Blocks) > 0 {
 						m.callers[g] = append(m.callers[g], call)
 					}
@@ -154,7 +154,7 @@ func (c *Ctx) a8phase(cleanFields map[*types.Var]bool) *a8Model {
 								}
 							}
 							if call, ok := x.Tuple.(*ssa.Call); ok {
-								for _, g := range p.Callees(call) {
+								for _, g := range p.CalleesData(call) {
 									if m.retT[g][x.Index] {
 										t, w = true, "result of "+fnName(g)
 									}
@@ -196,7 +196,7 @@ func (c *Ctx) a8phase(cleanFields map[*types.Var]bool) *a8Model {
 								}
 							}
 						case *ssa.Call:
-							for _, g := range p.Callees(x) {
+							for _, g := range p.CalleesData(x) {
 								if m.retT[g][0] && g.Signature.Results().Len() == 1 {
 									t, w = true, "result of "+fnName(g)
 								}
@@ -224,7 +224,7 @@ func (c *Ctx) a8phase(cleanFields map[*types.Var]bool) *a8Model {
 						}
 					}
 				case ssa.CallInstruction:
-					for _, g := range p.Callees(x) {
+					for _, g := range p.CalleesData(x) {
 						if !p.InPkg(g) || len(g.Blocks) == 0 || len(g.Params) != len(x.Common().Args) {
 							continue
 						}
@@ -648,7 +648,7 @@ func (m *a8Model) boundedUncached(v ssa.Value, at *ssa.BasicBlock, side int) boo
 	case *ssa.Extract:
 		if call, ok := x.Tuple.(*ssa.Call); ok {
 			okAll, n := true, 0
-			for _, g := range m.c.Callees(call) {
+			for _, g := range m.c.CalleesData(call) {
 				if !m.c.InPkg(g) || len(g.Blocks) == 0 {
 					continue
 				}
@@ -681,7 +681,7 @@ func (m *a8Model) boundedUncached(v ssa.Value, at *ssa.BasicBlock, side int) boo
 			return allOK
 		}
 		okAll, n := true, 0
-		for _, g := range m.c.Callees(x) {
+		for _, g := range m.c.CalleesData(x) {
 			if !m.c.InPkg(g) || len(g.Blocks) == 0 {
 				continue
 			}
